@@ -274,6 +274,7 @@ func specialReplay(in io.Reader, raw bool, args []string) (*Summary, error) {
 			}
 		}
 	})
+	gammaMonotoneHunt(sum)
 	specialConcurrent(sum)
 	sum.note("worst_abs_or_rel_error", worst)
 	return sum, err
@@ -475,6 +476,60 @@ func sortFloats(x []float64) {
 	for i := 1; i < len(x); i++ {
 		for j := i; j > 0 && x[j] < x[j-1]; j-- {
 			x[j], x[j-1] = x[j-1], x[j]
+		}
+	}
+}
+
+// gammaMonotoneHunt: "monotone in x" where a tolerance of 1e-9 cannot see - an evaluation whose accuracy changes in steps
+// (a series or continued fraction cut off after a varying number of terms) is accurate everywhere and still steps BACK
+// between two neighbouring floats.  Two searches: (1) the floats on both sides of the switch-over x = a + 1 for many
+// shapes; (2) along a grid beyond it, the deviation from an independent evaluation - wherever it changes by more than 3e-11
+// between two grid points the jump is chased by bisection down to two neighbouring floats, and there monotonicity is
+// demanded exactly (1e-13).  On an implementation that is accurate to ~1e-14 the second search never starts.
+func gammaMonotoneHunt(sum *Summary) {
+	c := json.RawMessage(`{"gamma-monotone":1}`)
+	const slack = 1e-13
+	pair := func(a, lo, hi float64, how string) {
+		sum.Checks++
+		p1, p2 := mathx.GammaInc(a, lo), mathx.GammaInc(a, hi)
+		q1, q2 := mathx.GammaIncComp(a, lo), mathx.GammaIncComp(a, hi)
+		if !(p2 >= p1-slack) || !(q2 <= q1+slack) {
+			sum.viol("GammaInc-monotone", c, "a=%v (%s): GammaInc(%.17g)=%.17g > GammaInc(%.17g)=%.17g or GammaIncComp %.17g < %.17g - neighbouring floats out of order", a, how, lo, p1, hi, p2, q1, q2)
+		}
+	}
+	for i := 0; i < 240; i++ {
+		a := 0.05 + float64(i)*0.4171
+		x := a + 1
+		pair(a, math.Nextafter(x, 0), x, "switch-over")
+		pair(a, x, math.Nextafter(x, math.Inf(1)), "switch-over")
+	}
+	reported := 0
+	for _, a := range []float64{0.3, 0.5, 1, 1.75, 2.5, 4, 7, 10.5, 17.25, 33, 60, 100} {
+		top := a + 1 + 14*math.Sqrt(a) + 12
+		const N = 600
+		dev := func(x float64) float64 { return mathx.GammaInc(a, x) - mathext.GammaIncReg(a, x) }
+		prevX, prevD := a+1.0000001, dev(a+1.0000001)
+		for k := 1; k <= N && reported < 3; k++ {
+			x := a + 1.0000001 + (top-a-1)*float64(k)/N
+			d := dev(x)
+			if math.Abs(d-prevD) > 3e-11 {
+				lo, hi, dlo, dhi := prevX, x, prevD, d
+				for it := 0; it < 80 && math.Nextafter(lo, hi) < hi; it++ {
+					mid := lo + (hi-lo)/2
+					dm := dev(mid)
+					if math.Abs(dm-dlo) >= math.Abs(dhi-dm) {
+						hi, dhi = mid, dm
+					} else {
+						lo, dlo = mid, dm
+					}
+				}
+				before := len(sum.Violations)
+				pair(a, lo, hi, "jump in the deviation from an independent evaluation")
+				if len(sum.Violations) > before {
+					reported++
+				}
+			}
+			prevX, prevD = x, d
 		}
 	}
 }
